@@ -128,13 +128,15 @@ Qed.
 
 Lemma run_input_frozen f now s i : frozen s (outcome_state (run_input f now s i) s).
 Proof.
-  destruct i as [ps ts ref md amd force | id force at_eff rmeta | [a|id] md | [a|id] k]; simpl.
-  - destruct ps as [|p ps']; [apply frozen_refl|].
+  script_split i.
+  { simpl. unfold create_tx. destruct ps as [|p ps']; [apply frozen_refl|].
     destruct (feasible force (s_vols s) (p :: ps')); simpl; [|apply frozen_refl].
     destruct (commit_transaction f now s (p :: ps') md ts ref) as [s1 [t|]] eqn:E; simpl.
     + eapply frozen_trans; [eapply commit_frozen; exact E|].
       apply frozen_same_txs. destruct (upsert_tx_accounts_frame f now s1 t amd) as (_ & E2 & _). exact E2.
-    + eapply commit_frozen; exact E.
+    + eapply commit_frozen; exact E. }
+  destruct i as [ps ts ref md amd force | id force at_eff rmeta | [a|id] md | [a|id] k | ps ts ref md amd force smd samd];
+    [apply Hc | | | | | | script_bullet Hc]; simpl.
   - destruct (find_tx (s_txs s) id) as [t|]; [|apply frozen_refl].
     destruct (t_rev t); [apply frozen_refl|].
     pose proof (touch_tx_frozen f s t t_meta now (fun _ => Some now)) as H1.
